@@ -170,12 +170,12 @@ impl LazyAddGraphNodeAttribute {
                     "{} on {}",
                     attribute.name, node,
                 )))
-                .with_context(|| {
-                    (
-                        prev_debug_info.unwrap().into(),
-                        self.debug_info.clone().into(),
-                    )
-                        .into()
+                .with_context(|| match prev_debug_info {
+                    Some(prev_debug_info) => {
+                        (prev_debug_info.into(), self.debug_info.clone().into()).into()
+                    }
+                    // the attribute was already in the graph before this execution
+                    None => self.debug_info.clone().into(),
                 });
             };
         }
@@ -295,12 +295,12 @@ impl LazyAddEdgeAttribute {
                     "{} on edge ({} -> {})",
                     attribute.name, source, sink,
                 )))
-                .with_context(|| {
-                    (
-                        prev_debug_info.unwrap().into(),
-                        self.debug_info.clone().into(),
-                    )
-                        .into()
+                .with_context(|| match prev_debug_info {
+                    Some(prev_debug_info) => {
+                        (prev_debug_info.into(), self.debug_info.clone().into()).into()
+                    }
+                    // the attribute was already in the graph before this execution
+                    None => self.debug_info.clone().into(),
                 });
             }
         }
